@@ -160,10 +160,14 @@ def analyse(case, io):
             if any("nonasync" in sp for sp in openctx.get(t, [])) and any(l != "bad" and not computed(_t(l)) for l in leaves):
                 susp_nonasync.add(t)
             first = []
+            here = set()
             for l in leaves:
                 if l == "bad":
                     continue
                 c = _t(l)
+                if c in here:
+                    continue                # listed twice in this one yield: its place is that of the first occurrence
+                here.add(c)
                 if created.get(c, {}).get("what") == "task" and c not in awaited and c not in started:
                     if c not in first:
                         first.append(c)
@@ -202,6 +206,8 @@ def analyse(case, io):
                     add("C01:received-value", "yield-result-differs",
                         "task %s yield #%d received %s, sequential evaluation of the yielded structure gives %s" % (list(t), k, gott, expt))
                 else:
+                    add("C01:received-value", "yield-%s-differs" % ("result" if "Ok" in gott else "exception"),
+                        "task %s yield #%d received %s, sequential evaluation of the yielded structure raises %s" % (list(t), k, gott, expt))
                     add("C02:exception-delivery", "wrong-exception-at-yield:%s" % ("got-value" if "Ok" in gott else "other-exception"),
                         "task %s yield #%d received %s, expected the first failing future's own exception %s" % (list(t), k, gott, expt))
         elif n == "EvStep":
@@ -434,6 +440,12 @@ def analyse(case, io):
                 if r in done:
                     add("C02:root-outcome", "value()-differs-from-task-outcome",
                         "value() of computation #%d gave %s, the root task completed with %s" % (len(roots) - 1, outs[len(roots) - 1], done.get(r)))
+        elif n == "AuxFlushActive":
+            want = {"Some": [list(sync_stack[-1][0])]} if sync_stack else "None"
+            if a[2] != want and not case.get("params", {}).get("reentrant"):
+                add("C08:active-task", "during-flush:%s" % ("inside-sync-call" if sync_stack else "scheduler-flush"),
+                    "get_active_task() inside the flush body of batch (%s,%s) returned %s; the code that is running is %s" % (
+                        a[0], a[1], a[2], ("the task inside a synchronous call, %s" % want) if sync_stack else "no task's"))
         elif n == "AuxVars":
             for var, v in a[0]:
                 if v != {"VInt": [0]}:
